@@ -170,7 +170,7 @@ def gen_run(rng, cfg):
                     else:
                         items = ["typedef int T;", "int x = a" + "[a" * n + "]" * n + ";"]
                     if rng.random() < 0.7:
-                        op["reclimit"] = rng.choice([40, 80, 150, 400])
+                        op["reclimit"] = rng.choice([80, 150, 400])
                     else:
                         items = W.deep_program(rng)  # against the natural limit
                     op["untraced"] = True
@@ -472,6 +472,9 @@ def summarise(spec, result, info):
             fired["abandon"] = fired.get("abandon", 0) + 1
         if op["op"] == "parse_file" and r.get("out", {}).get("k") == "ok":
             pr["parse_file_ok" + ("_with_cpp_seam" if op.get("use_cpp") else "")] = pr.get("parse_file_ok" + ("_with_cpp_seam" if op.get("use_cpp") else ""), 0) + 1
+    if info.get("rec_mismatches"):
+        pr["recursion_mismatch_rechecked"] = info["rec_mismatches"]
+        pr["recursion_mismatch_dismissed_as_not_robust"] = info.get("rec_mismatches_not_robust", 0)
     return {
         "n_ops": len(ops),
         "n_compared": sum(1 for r in results if compared(r)),
